@@ -203,6 +203,19 @@ func c03Atomic(maxA, maxOps int) {
 		verifFail("setup-state-keys")
 	}
 	ts := tstate.New(0)
+	if initial[0].ok {
+		// optionally an earlier transaction of the same block already deleted k1 (block-level pending delete): what this
+		// transaction then writes must show in the block's post-state even if it equals the value still on disk
+		if verifChoose("earlierTxDeletedK1", 2) == 1 {
+			v0 := ts.NewView(state.CompletePermissions, state.ImmutableStorage(storage), 0)
+			if err := v0.Remove(ctx, w.keys[0]); err != nil {
+				verifFail("setup-remove-error")
+			}
+			v0.Commit()
+			initial[0] = c03cell{}
+			verifReach("block-level-delete")
+		}
+	}
 	tsv := ts.NewView(keys, state.ImmutableStorage(storage), len(keys))
 	if err := tx.PreExecute(ctx, fm, hBH{}, r, tsv, 1500); err != nil {
 		// not included in any block
